@@ -2,7 +2,7 @@ import SccacheModel.Model.Lru
 
 namespace LruM
 
-/-! Proofs (design round): the size-limit half of C07 on the model of the pinned code. -/
+/-! Proofs: the size-limit half of C07 on the model of the code after the fixes of F-C07-a/b. -/
 namespace Lru
 
 def reservedSum (c : Lru) : Nat := (c.temps.map (·.reserved)).sum
@@ -27,44 +27,49 @@ theorem lruInsertFuel_noop (f cap : Nat) (es : List (Key × Nat)) (h : (es.map (
   | zero => rfl
   | succ f => simp [lruInsertFuel]; omega
 
-/-- frame of `make_space`: only `entries`, `files` and `poisoned` can change -/
+/-- frame of `make_space`: only `entries` and `files` can change, the index only shrinks, and on success the request fits -/
 theorem makeSpaceFuel_spec (f : Nat) (c c' : Lru) (n : Nat) (r : Res) (h : makeSpaceFuel f c n = (c', r)) :
     c'.pendingSize = c.pendingSize ∧ c'.temps = c.temps ∧ c'.cap = c.cap ∧ c'.pendingKeys = c.pendingKeys ∧
-    c'.lruSize ≤ c.lruSize ∧
-    (r = .ok → c'.lruSize + c'.pendingSize + n ≤ c'.cap ∧ c'.poisoned = c.poisoned) ∧
-    (r ≠ .ok → c'.poisoned = true) := by
+    c'.lruSize ≤ c.lruSize ∧ c'.poisoned = c.poisoned ∧
+    (r = .ok → c'.lruSize + c'.pendingSize + n ≤ c'.cap) ∧ (r = .ok ∨ r = .tooLarge) := by
   induction f generalizing c with
-  | zero => simp only [makeSpaceFuel] at h; cases h; simp [lruSize]
+  | zero => simp only [makeSpaceFuel] at h; cases h; simp
   | succ f ih =>
     unfold makeSpaceFuel at h
     by_cases hgt : c.size + n > c.cap
     · simp only [hgt, if_true] at h
       cases he : c.entries with
-      | nil => simp only [he] at h; cases h; simp [lruSize]
+      | nil => simp only [he] at h; cases h; simp
       | cons e rest =>
         obtain ⟨k, sz⟩ := e
         simp only [he] at h
         have := ih { c with entries := rest, files := eraseKey c.files k } h
-        obtain ⟨h1, h2, h3, h4, h5, h6, h7⟩ := this
-        refine ⟨h1, h2, h3, h4, ?_, h6, h7⟩
+        obtain ⟨h1, h2, h3, h4, h5, h6, h7, h8⟩ := this
+        refine ⟨h1, h2, h3, h4, ?_, h6, h7, h8⟩
         have : lruSize { c with entries := rest, files := eraseKey c.files k } ≤ c.lruSize := by simp [lruSize, he]
         omega
     · simp only [hgt, if_false] at h
       cases h
-      refine ⟨rfl, rfl, rfl, rfl, Nat.le_refl _, fun _ => ⟨by simp only [size] at hgt; omega, rfl⟩, fun hne => absurd rfl hne⟩
+      refine ⟨rfl, rfl, rfl, rfl, Nat.le_refl _, rfl, fun _ => by simp only [size] at hgt; omega, Or.inl rfl⟩
 
 theorem makeSpace_spec (c c' : Lru) (n : Nat) (r : Res) (h : c.makeSpace n = (c', r)) :
     c'.pendingSize = c.pendingSize ∧ c'.temps = c.temps ∧ c'.cap = c.cap ∧ c'.pendingKeys = c.pendingKeys ∧
-    c'.lruSize ≤ c.lruSize ∧
-    (r = .ok → c'.lruSize + c'.pendingSize + n ≤ c'.cap ∧ c'.poisoned = c.poisoned) ∧
-    (r ≠ .ok → c'.poisoned = true ∨ c' = c) := by
+    c'.lruSize ≤ c.lruSize ∧ c'.poisoned = c.poisoned ∧
+    (r = .ok → c'.lruSize + c'.pendingSize + n ≤ c'.cap) ∧ (r = .ok ∨ r = .tooLarge) := by
   unfold makeSpace at h
   by_cases hn : n > c.cap
   · simp only [hn, if_true] at h; cases h
-    exact ⟨rfl, rfl, rfl, rfl, Nat.le_refl _, fun e => Res.noConfusion e, fun _ => Or.inr rfl⟩
+    exact ⟨rfl, rfl, rfl, rfl, Nat.le_refl _, rfl, fun e => Res.noConfusion e, Or.inr rfl⟩
   · simp only [hn, if_false] at h
-    obtain ⟨h1, h2, h3, h4, h5, h6, h7⟩ := makeSpaceFuel_spec _ c c' n r h
-    exact ⟨h1, h2, h3, h4, h5, h6, fun hne => Or.inl (h7 hne)⟩
+    exact makeSpaceFuel_spec _ c c' n r h
+
+/-- the accounting invariant survives anything that only shrinks the index -/
+theorem acct_mono (c c' : Lru) (hA : Acct c) (h1 : c'.pendingSize = c.pendingSize) (h2 : c'.temps = c.temps) (h3 : c'.cap = c.cap)
+    (h5 : c'.lruSize ≤ c.lruSize) (h6 : c'.poisoned = c.poisoned) : Acct c' := by
+  intro hnp
+  have := hA (by rw [← h6]; exact hnp)
+  refine ⟨by omega, ?_⟩
+  simp only [reservedSum, h2, h1] at *; exact this.2
 
 theorem lruInsert_spec (c : Lru) (k : Key) (n : Nat) (h : c.lruSize + n ≤ c.cap) :
     (c.lruInsert k n).lruSize ≤ c.lruSize + n ∧
@@ -85,11 +90,10 @@ theorem acct_of_poisoned (c : Lru) (h : c.poisoned = true) : Acct c := by
 theorem prepareAdd_acct (c : Lru) (k : Key) (n : Nat) (h : Acct c) : Acct (c.prepareAdd k n).1 := by
   unfold prepareAdd
   rcases hr : c.makeSpace n with ⟨c', r⟩
-  obtain ⟨h1, h2, h3, h4, h5, h6, h7⟩ := makeSpace_spec c c' n r hr
-  cases r with
-  | ok =>
-    simp only
-    obtain ⟨hsz, hpo⟩ := h6 rfl
+  obtain ⟨h1, h2, h3, h4, h5, hpo, h6, h8⟩ := makeSpace_spec c c' n r hr
+  rcases h8 with rfl | rfl
+  · simp only
+    have hsz := h6 rfl
     intro hnp
     have hA := h (by rw [← hpo]; exact hnp)
     refine ⟨?_, ?_⟩
@@ -98,18 +102,7 @@ theorem prepareAdd_acct (c : Lru) (k : Key) (n : Nat) (h : Acct c) : Acct (c.pre
     · show reservedSum _ ≤ c'.pendingSize + n
       simp only [reservedSum, List.map_append, List.sum_append, List.map_cons, List.map_nil, List.sum_cons, List.sum_nil, h2]
       have := hA.2; simp only [reservedSum] at this; omega
-  | tooLarge => simp only; rcases h7 (by simp) with hp | he
-                · exact acct_of_poisoned _ hp
-                · rw [he]; exact h
-  | panic => simp only; rcases h7 (by simp) with hp | he
-             · exact acct_of_poisoned _ hp
-             · rw [he]; exact h
-  | notInCache => simp only; rcases h7 (by simp) with hp | he
-                  · exact acct_of_poisoned _ hp
-                  · rw [he]; exact h
-  | ioErr => simp only; rcases h7 (by simp) with hp | he
-             · exact acct_of_poisoned _ hp
-             · rw [he]; exact h
+  · simp only; exact acct_mono c c' h h1 h2 h3 h5 hpo
 
 theorem insertBytes_acct (c : Lru) (k : Key) (n : Nat) (h : Acct c) : Acct (c.insertBytes k n).1 := by
   unfold insertBytes
@@ -117,31 +110,21 @@ theorem insertBytes_acct (c : Lru) (k : Key) (n : Nat) (h : Acct c) : Acct (c.in
   · simp only [hn, if_true]; exact h
   · simp only [hn, if_false]
     unfold addFile
-    have hA' : Acct { c with files := eraseKey c.files k ++ [(k, n)] } := h
-    rcases hr : makeSpace { c with files := eraseKey c.files k ++ [(k, n)] } n with ⟨c', r⟩
-    obtain ⟨h1, h2, h3, h4, h5, h6, h7⟩ := makeSpace_spec _ c' n r hr
-    cases r with
-    | ok =>
-      simp only
-      obtain ⟨hsz, hpo⟩ := h6 rfl
+    have hA' : Acct { c with files := eraseKey c.files k ++ [(k, n)], entries := eraseKey c.entries k } :=
+      acct_mono c _ h rfl rfl rfl (by simpa [lruSize] using sum_eraseKey_le c.entries k) rfl
+    rcases hr : makeSpace { c with files := eraseKey c.files k ++ [(k, n)], entries := eraseKey c.entries k } n with ⟨c', r⟩
+    obtain ⟨h1, h2, h3, h4, h5, hpo, h6, h8⟩ := makeSpace_spec _ c' n r hr
+    rcases h8 with rfl | rfl
+    · simp only
+      have hsz := h6 rfl
       intro hnp
       have hins := lruInsert_spec c' k n (by omega)
       have hA := hA' (by rw [← hpo, ← hins.2.2.2.2]; exact hnp)
       refine ⟨?_, ?_⟩
       · rw [hins.2.1, hins.2.2.2.1]; omega
       · simp only [reservedSum, hins.2.2.1, hins.2.1, h2, h1]; exact hA.2
-    | tooLarge => simp only; rcases h7 (by simp) with hp | he
-                  · exact acct_of_poisoned _ hp
-                  · rw [he]; exact hA'
-    | panic => simp only; rcases h7 (by simp) with hp | he
-               · exact acct_of_poisoned _ hp
-               · rw [he]; exact hA'
-    | notInCache => simp only; rcases h7 (by simp) with hp | he
-                    · exact acct_of_poisoned _ hp
-                    · rw [he]; exact hA'
-    | ioErr => simp only; rcases h7 (by simp) with hp | he
-               · exact acct_of_poisoned _ hp
-               · rw [he]; exact hA'
+    · simp only
+      exact acct_mono _ _ (acct_mono _ c' hA' h1 h2 h3 h5 hpo) rfl rfl rfl (Nat.le_refl _) rfl
 
 theorem reservedSum_filter_le (ts : List Pend) (h : Nat) :
     ((ts.filter (·.handle != h)).map (·.reserved)).sum ≤ (ts.map (·.reserved)).sum := by
@@ -210,18 +193,15 @@ theorem commit_acct (c : Lru) (h : Nat) (hA : Acct c) : Acct (c.commit h).1 := b
     have hfree := reservedSum_filter_find c.temps h p hf
     have hle := reservedSum_filter_le c.temps h
     rcases hr : makeSpace { c with temps := c.temps.filter (·.handle != h) } (p.written - p.reserved) with ⟨c1, r⟩
-    obtain ⟨h1, h2, h3, h4, h5, h6, h7⟩ := makeSpace_spec _ c1 _ r hr
-    simp only at h1 h2 h3
-    have hfail : ∀ r', r' ≠ Res.ok → (c1.poisoned = true ∨ c1 = { c with temps := c.temps.filter (·.handle != h) }) → Acct c1 := by
-      intro r' _ hcase
-      rcases hcase with hp | he
-      · exact acct_of_poisoned _ hp
-      · rw [he]; intro hnp; have := hA hnp
-        exact ⟨this.1, by simp only [reservedSum] at *; omega⟩
+    obtain ⟨h1, h2, h3, h4, h5, hpo, h6, h8⟩ := makeSpace_spec _ c1 _ r hr
+    simp only at h1 h2 h3 hpo
+    have hbase : Acct { c with temps := c.temps.filter (·.handle != h) } := by
+      intro hnp; have := hA hnp
+      exact ⟨this.1, by simp only [reservedSum] at *; omega⟩
     cases r with
     | ok =>
       show Acct ((commitCore c1 p).lruInsert p.key p.written)
-      obtain ⟨hsz, hpo⟩ := h6 rfl
+      have hsz := h6 rfl
       intro hnp
       have hnp1 : c1.poisoned = false := hnp
       have hnp0 : c.poisoned = false := by rw [← hpo]; exact hnp1
@@ -243,10 +223,10 @@ theorem commit_acct (c : Lru) (h : Nat) (hA : Acct c) : Acct (c.commit h).1 := b
         rw [h2, h1]
         simp only [reservedSum] at hA0
         omega
-    | tooLarge => exact hfail Res.tooLarge (fun e => Res.noConfusion e) (h7 (fun e => Res.noConfusion e))
-    | panic => exact hfail Res.panic (fun e => Res.noConfusion e) (h7 (fun e => Res.noConfusion e))
-    | notInCache => exact hfail Res.notInCache (fun e => Res.noConfusion e) (h7 (fun e => Res.noConfusion e))
-    | ioErr => exact hfail Res.ioErr (fun e => Res.noConfusion e) (h7 (fun e => Res.noConfusion e))
+    | tooLarge => exact acct_mono _ c1 hbase h1 h2 h3 h5 hpo
+    | panic => rcases h8 with e | e <;> cases e
+    | notInCache => rcases h8 with e | e <;> cases e
+    | ioErr => rcases h8 with e | e <;> cases e
 
 theorem get_acct (c : Lru) (k : Key) (hA : Acct c) : Acct (c.get k).1 := by
   unfold get
@@ -309,25 +289,17 @@ theorem externalDelete_acct (c : Lru) (k : Key) (hA : Acct c) : Acct (c.external
 theorem addFile_acct (c : Lru) (k : Key) (n : Nat) (hA : Acct c) : Acct (c.addFile k n).1 := by
   unfold addFile
   rcases hr : makeSpace c n with ⟨c', r⟩
-  obtain ⟨h1, h2, h3, h4, h5, h6, h7⟩ := makeSpace_spec _ c' n r hr
-  have hfail : (c'.poisoned = true ∨ c' = c) → Acct c' := by
-    intro hc; rcases hc with hp | he
-    · exact acct_of_poisoned _ hp
-    · rw [he]; exact hA
-  cases r with
-  | ok =>
-    simp only
-    obtain ⟨hsz, hpo⟩ := h6 rfl
+  obtain ⟨h1, h2, h3, h4, h5, hpo, h6, h8⟩ := makeSpace_spec _ c' n r hr
+  rcases h8 with rfl | rfl
+  · simp only
+    have hsz := h6 rfl
     intro hnp
     have hins := lruInsert_spec c' k n (by omega)
     have hA0 := hA (by rw [← hpo, ← hins.2.2.2.2]; exact hnp)
     refine ⟨?_, ?_⟩
     · rw [hins.2.1, hins.2.2.2.1]; omega
     · simp only [reservedSum, hins.2.2.1, hins.2.1, h2, h1]; exact hA0.2
-  | tooLarge => exact hfail (h7 (fun e => Res.noConfusion e))
-  | panic => exact hfail (h7 (fun e => Res.noConfusion e))
-  | notInCache => exact hfail (h7 (fun e => Res.noConfusion e))
-  | ioErr => exact hfail (h7 (fun e => Res.noConfusion e))
+  · simp only; exact acct_mono c c' hA h1 h2 h3 h5 hpo
 
 theorem reopen_acct (c : Lru) (order : List (Key × Nat)) : Acct (c.reopen order) := by
   unfold reopen
@@ -390,14 +362,124 @@ theorem size_limit (cap : Nat) (ops : List LOp) :
   intro c hnp
   exact (this ops { cap := cap } (by intro _; simp [lruSize, reservedSum]) hnp).1
 
-/-- F-C07-a, kernel-checked: two reservations that together exceed the capacity, empty index -/
-theorem over_reservation_witness :
-    ((({ cap := 25 } : Lru).prepareAdd 1 15).1.prepareAdd 2 15).2 = .panic := by decide
+/-! ### `no_panic`: after the fix of F-C07-a no operation of the model panics or poisons the cache -/
 
-/-- F-C07-b, kernel-checked: overwriting the least-recently-used key deletes the new file and keeps it indexed -/
-theorem self_eviction_witness :
+theorem lruInsert_poisoned (c : Lru) (k : Key) (n : Nat) : (c.lruInsert k n).poisoned = c.poisoned := rfl
+
+theorem addFile_np (c : Lru) (k : Key) (n : Nat) : (c.addFile k n).1.poisoned = c.poisoned ∧ (c.addFile k n).2 ≠ .panic := by
+  unfold addFile
+  rcases hr : makeSpace c n with ⟨c', r⟩
+  obtain ⟨_, _, _, _, _, hpo, _, h8⟩ := makeSpace_spec _ c' n r hr
+  rcases h8 with rfl | rfl
+  · exact ⟨by simp only [lruInsert_poisoned]; exact hpo, by simp⟩
+  · exact ⟨hpo, by simp⟩
+
+theorem insertBytes_np (c : Lru) (k : Key) (n : Nat) :
+    (c.insertBytes k n).1.poisoned = c.poisoned ∧ (c.insertBytes k n).2 ≠ .panic := by
+  unfold insertBytes
+  by_cases hn : n > c.cap
+  · simp [hn]
+  · simp only [hn, if_false]
+    have := addFile_np { c with files := eraseKey c.files k ++ [(k, n)], entries := eraseKey c.entries k } k n
+    rcases hr : addFile { c with files := eraseKey c.files k ++ [(k, n)], entries := eraseKey c.entries k } k n with ⟨c2, r⟩
+    rw [hr] at this
+    cases r <;> simp_all
+
+theorem prepareAdd_np (c : Lru) (k : Key) (n : Nat) :
+    (c.prepareAdd k n).1.poisoned = c.poisoned ∧ (c.prepareAdd k n).2 ≠ .panic := by
+  unfold prepareAdd
+  rcases hr : c.makeSpace n with ⟨c', r⟩
+  obtain ⟨_, _, _, _, _, hpo, _, h8⟩ := makeSpace_spec _ c' n r hr
+  rcases h8 with rfl | rfl
+  · exact ⟨hpo, by simp⟩
+  · exact ⟨hpo, by simp⟩
+
+theorem commit_np (c : Lru) (h : Nat) : (c.commit h).1.poisoned = c.poisoned ∧ (c.commit h).2 ≠ .panic := by
+  unfold commit
+  cases hf : c.temps.find? (·.handle == h) with
+  | none => simp
+  | some p =>
+    simp only
+    rcases hr : makeSpace { c with temps := c.temps.filter (·.handle != h) } (p.written - p.reserved) with ⟨c1, r⟩
+    obtain ⟨_, _, _, _, _, hpo, _, h8⟩ := makeSpace_spec _ c1 _ r hr
+    rcases h8 with rfl | rfl
+    · exact ⟨by simp only [lruInsert_poisoned]; exact hpo, by simp⟩
+    · exact ⟨hpo, by simp⟩
+
+theorem get_np (c : Lru) (k : Key) : (c.get k).1.poisoned = c.poisoned ∧ (c.get k).2 ≠ .panic := by
+  unfold get; split
+  · simp
+  · split <;> simp
+
+theorem remove_np (c : Lru) (k : Key) : (c.remove k).1.poisoned = c.poisoned ∧ (c.remove k).2 ≠ .panic := by
+  unfold remove; split
+  · split <;> simp
+  · simp
+
+theorem reopen_np (c : Lru) (order : List (Key × Nat)) : (c.reopen order).poisoned = false := by
+  unfold reopen
+  have : ∀ (l : List (Key × Nat)) (acc : Lru), acc.poisoned = false →
+      (l.foldl (fun acc (kn : Key × Nat) => if kn.2 > acc.cap then { acc with files := eraseKey acc.files kn.1 } else (acc.addFile kn.1 kn.2).1) acc).poisoned = false := by
+    intro l
+    induction l with
+    | nil => intro acc h; exact h
+    | cons kn l ih =>
+      intro acc h
+      simp only [List.foldl_cons]
+      apply ih
+      split
+      · exact h
+      · rw [(addFile_np acc kn.1 kn.2).1]; exact h
+  exact this _ _ rfl
+
+/-- the result of a public operation (`-` for those that return nothing) -/
+def lres (c : Lru) : LOp → Res
+  | .insertBytes k n => (c.insertBytes k n).2
+  | .prepareAdd k n => (c.prepareAdd k n).2
+  | .commit h => (c.commit h).2
+  | .get k => (c.get k).2
+  | .remove k => (c.remove k).2
+  | _ => .ok
+
+theorem lstep_np (c : Lru) (o : LOp) (h : c.poisoned = false) : (lstep c o).poisoned = false ∧ lres c o ≠ .panic := by
+  cases o with
+  | insertBytes k n => exact ⟨by simp only [lstep]; rw [(insertBytes_np c k n).1]; exact h, (insertBytes_np c k n).2⟩
+  | prepareAdd k n => exact ⟨by simp only [lstep]; rw [(prepareAdd_np c k n).1]; exact h, (prepareAdd_np c k n).2⟩
+  | write hh m => exact ⟨h, by simp [lres]⟩
+  | commit hh => exact ⟨by simp only [lstep]; rw [(commit_np c hh).1]; exact h, (commit_np c hh).2⟩
+  | dropEntry hh => exact ⟨h, by simp [lres]⟩
+  | get k => exact ⟨by simp only [lstep]; rw [(get_np c k).1]; exact h, (get_np c k).2⟩
+  | remove k => exact ⟨by simp only [lstep]; rw [(remove_np c k).1]; exact h, (remove_np c k).2⟩
+  | externalDelete k => exact ⟨h, by simp [lres]⟩
+  | reopen o => exact ⟨reopen_np c o, by simp [lres]⟩
+
+/-- C07 `no_panic`: no sequence of public operations — including concurrent reservations that together exceed the
+    limit, overwrites, dropped entries, external deletions and reopenings — makes the cache panic or poisons it -/
+theorem no_panic (cap : Nat) (ops : List LOp) (next : LOp) :
+    let c := ops.foldl lstep { cap := cap }
+    c.poisoned = false ∧ lres c next ≠ .panic := by
+  have : ∀ (ops : List LOp) (c : Lru), c.poisoned = false → (ops.foldl lstep c).poisoned = false := by
+    intro ops
+    induction ops with
+    | nil => intro c h; exact h
+    | cons o os ih => intro c h; exact ih _ (lstep_np c o h).1
+  have h := this ops { cap := cap } rfl
+  exact ⟨h, (lstep_np _ next h).2⟩
+
+/-- C07 `oversize_refused`: an entry larger than the whole cache is refused without disturbing anything -/
+theorem oversize_refused (c : Lru) (k n : Nat) (h : n > c.cap) :
+    c.insertBytes k n = (c, .tooLarge) ∧ c.prepareAdd k n = (c, .tooLarge) := by
+  simp [insertBytes, prepareAdd, makeSpace, h]
+
+/-- F-C07-a (fixed in /repo): two reservations that together exceed the capacity with an empty index are now
+    refused (`tooLarge`) — on the pinned tree this was `expect("Unexpectedly empty cache!")` -/
+theorem over_reservation_refused :
+    ((({ cap := 25 } : Lru).prepareAdd 1 15).1.prepareAdd 2 15).2 = .tooLarge := by decide
+
+/-- F-C07-b (fixed in /repo): overwriting the least-recently-used key keeps the new file -/
+theorem self_eviction_fixed :
     let c := (((({ cap := 20 } : Lru).insertBytes 1 10).1.insertBytes 2 10).1.insertBytes 1 10).1
-    c.containsKey 1 = true ∧ c.files.any (·.1 == 1) = false := by decide
+    c.containsKey 1 = true ∧ c.files.any (·.1 == 1) = true := by decide
 
 end Lru
 
